@@ -85,8 +85,10 @@ PRECISIONS = {
 }
 
 
-def check_precisions(P, R):
+def check_precisions(P, R, only=None):
     for name, (proj, cnt) in PRECISIONS.items():
+        if only is not None and name not in only:
+            continue
         f = P.func(FA + name)
         R.analysed(f)
         vp = f.value_params
@@ -122,6 +124,10 @@ def check_precisions(P, R):
             wcnt = all(any(pol._match(a, [cnt_a]) for a in x[1]) for x in dat)
             R.check(pos, "PREC.data", f.key, f"+ {proj_a}·{cnt_a}", pol.fmt_terms(dat), f"data term enters the precision with the wrong sign: {pol.fmt_terms(dat)}", node.lineno)
             R.check(wcnt, "PREC.data", f.key, f"{proj_a} weighted by {cnt_a}", pol.fmt_terms(dat), f"projection term is not weighted by the counts {cnt_a}: {pol.fmt_terms(dat)}", node.lineno)
+            # counts and projections multiply, the UBM variances divide
+            pi = pol.Pol(P, f, track_inv=True)
+            it = list(dict.fromkeys(pi.terms(e, st)))
+            pol.check_inverse(R, "PREC.placement", f.key, it, inverted=["variances", "_variances"], direct=[cnt_a, proj_a], what=f"precision `{src(e)[:50]}`: counts multiply, variances divide", line=node.lineno)
         # the function returns the inverted quantity
         du = p.du
         for r in rets:
@@ -204,3 +210,5 @@ def run(P, R, tier):
         "factor_analysis:ISVMachine.enroll", "factor_analysis:JFAMachine.enroll",
     ])
     R.floor("ARGROLE", n, 25)
+    from ..engines import idx as _idx
+    _idx.check_class_select(P, R, "factor_analysis:FactorAnalysisBase._get_statistics_by_class_id")
